@@ -40,7 +40,10 @@ META = {
             'after min(own time-out, largest deadline of the outstanding sub-events), no lost wake-up (safety in '
             'virtual time and termination under fairness), waiting_for() / deadline() are consistent views, a queued '
             'action runs exactly once (also when queue() races with the last set), clear / re-use, triggers fired '
-            'twice; the repaired design holds, each repair switch set back (and a lock-less mutation) must fail. '
+            'twice, set() / clear() of the MultiEvent itself refused; the repaired design holds, each repair switch '
+            'set back (and a lock-less mutation) must fail; behaviours of this model, projected to observable events, '
+            'are judged by the observable contract (repaired: accepted as they are; as it stands: exactly the named '
+            'deviations). '
             'Every behaviour of Gen_MultiEventX to the depth bound is replayed on the real class (driver + blocked '
             'waiters under a deterministic scheduler, virtual time) with results and projected state compared after '
             'each step; executions of the real class with 2-4 threads under all schedules with bounded preemptions '
@@ -524,8 +527,10 @@ def _explore_job(args):
     elif mode == 'rscript':
         for k in range(p2):
             seed = p1 * 100003 + k
-            r = _result(run_scenario(random_scenario(seed), ds.RandomStrategy(seed, stay=(0.6, 0.8, 0.9)[k % 3])))
+            sc = random_scenario(seed)
+            r = _result(run_scenario(sc, ds.RandomStrategy(seed, stay=(0.6, 0.8, 0.9)[k % 3])))
             r['seed'] = seed
+            r['script'] = sc
             out.append(r)
     return name, mode, out
 
@@ -867,6 +872,7 @@ def run(chk):
             org = {'world': 'trace', 'scenario': name, 'choices': r['choices']}
             if mode == 'rscript':
                 org['seed'] = r['seed']
+                org['script'] = r['script']
             runs.append((org, r))
     corpus = _corpus()
     # schedules that showed a deviation once (the ones the design model predicts): replayed on every run
@@ -936,7 +942,7 @@ def replay(chk, rep):
             print({k: v for k, v in st.items() if k != 'exp'})
         print('->', json.dumps(bad, indent=1), json.dumps(isset_bad[:2]))
     elif d.get('world') == 'trace':
-        sc = random_scenario(d['seed']) if d.get('seed') is not None else SCEN[d['scenario']]
+        sc = d.get('script') or SCEN[d['scenario']]
         w = run_scenario(sc, ds.GuidedStrategy(d['choices']))
         for j, e in enumerate(w.trace, 1):
             print(j, e)
